@@ -73,7 +73,11 @@ def raising(exc):
 # each injection: name -> (bound, runner(exc) -> description of return value)
 def inj_parse_docstring(exc):
     s = fresh(); f = s.allobjects['m.f']
-    with patched(epydoc2stan, 'get_parser_by_name', lambda *a, **k: raising(exc)):
+    def parser(doc, errs):
+        if isinstance(exc, ParseError):
+            errs.append(exc)      # the parsers' contract: a ParseError that is raised has been stored in the list first
+        raise exc
+    with patched(epydoc2stan, 'get_parser_by_name', lambda *a, **k: parser):
         r = epydoc2stan.parse_docstring(f, 'some text', f)
     assert isinstance(r, ParsedDocstring)
     assert 'm.f' in s.parse_errors['docstring'], 'failure not recorded against the object'
